@@ -271,7 +271,13 @@ def check_case(case, tier):
                 break
         return CaseResult(failures, True, labels, sample={"corpus": case["path"], "rates": n}, extra={"corpus_rate_expressions": n})
     if case["kind"] == "text":
-        tree = FT.parse(case["text"])
+        try:
+            tree = FT.parse(case["text"])
+            if FT.has_int_division(tree):
+                return CaseResult(discarded=True)
+            FT.evaluate(tree, valuation(seed, names_in(tree, set()) | set(VARS), 0), valuation(seed + 17, set(SPECIES), 0))
+        except (FT.FortranSyntaxError, KeyError, IndexError):
+            return CaseResult(discarded=True)  # not a Fortran expression in my reader's vocabulary
         st_, ctext = compare_text(case["text"], tree, seed, failures, labels)
         feats = FT.features(tree)
         return CaseResult(failures, True, labels + sorted(feats), sample={"fortran": case["text"], "c": ctext})
@@ -313,3 +319,12 @@ def check_case(case, tier):
 
 def _rename(tree):
     return tree
+
+
+def post_phase(tier, seed):
+    """Thorough tier: coverage-guided supplement (atheris) over the same oracle, empty starting corpus."""
+    if tier != "thorough":
+        return {}
+    from ..fuzz import supplement
+
+    return supplement(PROPERTY, seed, 150000)
